@@ -27,7 +27,7 @@ def analyse(check, proj, name):
     def bad(rule, text, key):
         if (rule, key) not in fails:
             fails[(rule, key)] = text
-    proved = {r: 0 for r in ("LIM-ZERO", "LIM-SIGN", "LIM-BOUND2", "LIM-BOUNDMAX", "LIM-SYM", "LIM-ODD", "LIM-CONSIST", "LIM-HOMOG")}
+    proved = {r: 0 for r in ("LIM-ZERO", "LIM-SIGN", "LIM-BOUND2", "LIM-BOUNDMAX", "LIM-SYM", "LIM-ODD", "LIM-CONSIST", "LIM-HOMOG", "LIM-DEFINED")}
     und = []
     import itertools
     policies = [()]
@@ -58,14 +58,26 @@ def analyse(check, proj, name):
                     vo = lc.phi(A, it, -a, -b)
                     nfree += lc.free_used
                 except AnalysisError as e:
-                    und.append("%s: %s" % (rname, e))
+                    if "division by literal zero" in str(e):
+                        bad("LIM-DEFINED", "in region %s the body divides by an expression that vanishes there (0/0): numpy evaluates both branches of np.where before selecting, so plain Python floats raise ZeroDivisionError and arrays compute an invalid value first" % rname, "defined")
+                    else:
+                        und.append("%s: %s" % (rname, e))
                     continue
                 # clauses that compare two evaluations are decided only when no reduction outcome was
                 # free (the array contexts of the two evaluations differ); single-evaluation clauses are
                 # decided on every path
                 multi = nfree == 0 and not single_only
                 if A.atoms_of(v, "ind"):
-                    und.append("%s [%s]: selection not resolved (%s)" % (rname, regime, A.show(v, 100)))
+                    # a selection that the region and regime do not resolve (a threshold other than the
+                    # one the regimes are built on, e.g. the hidden absolute tolerance of np.isclose):
+                    # the clauses are evaluated at witness points of the region spread log-uniformly over
+                    # the statement's scale range [1e-8, 1e8]; a failing point is a refutation, agreement
+                    # decides nothing
+                    w = _numeric_refutation(A, lc, it, v, a, b, kind, s, lo, hi, rname, regime)
+                    if w is not None:
+                        bad(w[0], w[1], w[2])
+                    else:
+                        und.append("%s [%s]: selection not resolved (%s)" % (rname, regime, A.show(v, 100)))
                     continue
                 where = "%s%s" % (rname, "" if kind != "same" else (" (product above the regularisation threshold)" if regime == "above" else " (product below the threshold)"))
                 if vpath:
@@ -181,6 +193,100 @@ def analyse(check, proj, name):
         check.ok("LIM-ELEMENTWISE", q, "np.all / np.any are used as branch conditions only; the single-entry clauses hold on all %d outcome paths (any array context)" % len(policies), loc)
 
 
+def _numeric_refutation(A, lc, it, v, a, b, kind, s, lo, hi, rname, regime):
+    """-> (rule, text, key) or None"""
+    import re
+    from decimal import Decimal
+    rx = re.compile(r"^[xyz]$")
+    saved = list(A.point_pattern_hooks)
+    A.point_pattern_hooks.append((rx, lambda m, k, h: 10.0 ** (-8.0 + 16.0 * h)))
+    try:
+        tried = 0
+        for k in range(5000, 5400):
+            A._memo.pop(k, None)
+            if not A.admissible(k):
+                continue
+            va, vb, vv = A.evalf(A.lift(a), k), A.evalf(A.lift(b), k), A.evalf(v, k)
+            if va is None or vb is None or vv is None:
+                continue
+            tried += 1
+            fa, fb, fv = float(va), float(vb), float(vv)
+            pt = "a = %.3g, b = %.3g -> %.3g" % (fa, fb, fv)
+            if kind == "zero":
+                if fv != 0.0:
+                    return ("LIM-ZERO", "phi(%s) in region %s, must be 0" % (pt, rname), "zero")
+                continue
+            m, M = min(abs(fa), abs(fb)), max(abs(fa), abs(fb))
+            if fv * s < 0:
+                return ("LIM-SIGN", "phi(%s) has the sign opposite to its arguments (region %s)" % (pt, rname), "sign")
+            if abs(fv) > 2 * m * (1 + 1e-12):
+                return ("LIM-BOUND2", "phi(%s) exceeds 2*min(|a|,|b|) (region %s)" % (pt, rname), "LIM-BOUND2")
+            if abs(fv) > M * (1 + 1e-12):
+                return ("LIM-BOUNDMAX", "phi(%s) exceeds max(|a|,|b|) (region %s)" % (pt, rname), "LIM-BOUNDMAX")
+            if m >= 1e-8 and rname.endswith("|a| = |b|"):
+                if abs(abs(fv) - m) > max(1e-20 / m, 1e-15 * m):
+                    return ("LIM-CONSIST", "phi(a,a) with %s deviates from a by more than the statement's relative 1e-20/a^2 although |a| >= 1e-8 (region %s)" % (pt, rname), "consist")
+            if m >= 1e-8 and fv == 0.0 and regime == "above":
+                return ("LIM-HOMOG", "phi(%s) = 0 for same-sign slopes above the regularisation scale 1e-8: not positively homogeneous (phi(t*a, t*b) is non-zero for larger t) (region %s)" % (pt, rname), "homog")
+        return None
+    finally:
+        A.point_pattern_hooks[:] = saved
+
+
+ROUND_MAX_ULPS = 2 ** 20      # ~1e6 u = 1.2e-10 relative: far above what a well-conditioned formula commits
+
+
+def rounding(check, proj, name):
+    """LIM-ROUND: first-order forward error analysis (rounding.py) of the limiter's own expression
+    tree in every same-sign region; the relative error bound of the RESULT, a ring element, is
+    evaluated at witness points spread log-uniformly over slope magnitudes 1e-8 .. 1e8"""
+    import re
+    from ..interp import Interp
+    from ..rounding import ErrDomain, EV
+    lc = LimCtx(proj, name)
+    f = lc.f
+    A0, _ = lc.fresh()
+    nreg = len(regions(A0))
+    worst = None
+    analysed = 0
+    for ri in range(nreg):
+        A, _ = lc.fresh()
+        rname, a, b, kind, s, lo, hi = regions(A)[ri]
+        if kind != "same":
+            continue
+        A.assume_pos(a * b - THRESH)
+        dom = ErrDomain(A)
+        it = Interp(proj, dom)
+        it.fold_locals = False
+        try:
+            r = it.call_function(f, [EV(A.lift(a), A.const(0)), EV(A.lift(b), A.const(0))])
+        except AnalysisError as e:
+            check.undecided("LIM-ROUND", f.qualname, "rounding analysis failed in region %s: %s" % (rname, e), f.loc())
+            return
+        if not isinstance(r, EV):
+            continue
+        analysed += 1
+        A.point_pattern_hooks.append((re.compile(r"^[xyz]$"), lambda m, k, h: 10.0 ** (-8.0 + 16.0 * h)))
+        for k in range(7000, 7300):
+            A._memo.pop(k, None)
+            if not A.admissible(k):
+                continue
+            ev = A.evalf(r.e, k)
+            va, vb = A.evalf(A.lift(a), k), A.evalf(A.lift(b), k)
+            if ev is None or va is None or vb is None or ev.is_nan():
+                continue
+            e = float(ev)
+            if worst is None or e > worst[0]:
+                worst = (e, float(va), float(vb), rname)
+    check.inventory["%s rounding regions" % name] = analysed
+    if worst is None:
+        check.undecided("LIM-ROUND", f.qualname, "no witness point evaluated", f.loc())
+    elif worst[0] > ROUND_MAX_ULPS:
+        check.violation("LIM-ROUND", f.qualname, "the formula as written amplifies rounding errors: first-order relative error bound of the result %.3g u (u = 2^-53, i.e. %.1e relative) at a = %.3g, b = %.3g (region %s) -- a cancellation of nearly equal rounded intermediates; the bounds |phi| <= 2 min(|a|,|b|) and <= max cannot hold to rounding there" % (worst[0], worst[0] * 1.1e-16, worst[1], worst[2], worst[3]), f.loc(), key="round")
+    else:
+        check.ok("LIM-ROUND", f.qualname, "first-order relative rounding-error bound of the result <= %.0f u on all witness points of the %d same-sign regions (slope magnitudes 1e-8 .. 1e8, ratios up to 1e16)" % (worst[0], analysed), f.loc())
+
+
 def overflow(check, proj, name, tier):
     f = proj.func("xnum." + name)
     step = 10 if tier == "quick" else 2
@@ -208,3 +314,4 @@ def body(check):
     for n in lims:
         check.guarded("LIM-REGION", "xnum." + n, lambda: analyse(check, proj, n))
         check.guarded("MAG-MUST-OVERFLOW", "xnum." + n, lambda: overflow(check, proj, n, check.tier))
+        check.guarded("LIM-ROUND", "xnum." + n, lambda: rounding(check, proj, n))
